@@ -25,6 +25,7 @@ package main
 
 import (
 	"bytes"
+	"encoding/hex"
 	"fmt"
 	"io"
 	"reflect"
@@ -58,6 +59,138 @@ func c09Map(kvs []c09KV) map[string]string {
 }
 
 func c09Int(s string) int { n, _ := strconv.Atoi(s); return n }
+
+// ---------- compact descriptions of large payloads (writer lines) ----------
+
+// encoders whose parameters may contain the macros !h<bx>! (the hex digits of the bytes the bx expression of
+// harness/c07.go denotes), !l<bx>! (the same bytes as a comma-separated list of two-digit hex numbers) and !q<bx>!
+// (as a comma-separated list of 16-digit hex numbers); the driver
+// expands the same macros (Driver/C09.lean `expand`). Pack's data= is a bx expression already.
+var c09MacroEncoders = map[string]bool{"fld": true, "rcon": true, "dynbt": true, "nbt": true, "bits": true} // (decoder "fld", "bits" too)
+
+func c09Expand(s string) string {
+	if !strings.Contains(s, "!") {
+		return s
+	}
+	parts := strings.Split(s, "!")
+	var sb strings.Builder
+	for i, part := range parts {
+		if i%2 == 0 || part == "" {
+			sb.WriteString(part)
+			continue
+		}
+		b := bxEval(part[1:])
+		switch part[0] {
+		case 'h':
+			sb.WriteString(hex.EncodeToString(b))
+		case 'l':
+			for j, x := range b {
+				if j > 0 {
+					sb.WriteByte(',')
+				}
+				fmt.Fprintf(&sb, "%02x", x)
+			}
+		case 'q': // groups of eight bytes (longs)
+			for j := 0; j+8 <= len(b); j += 8 {
+				if j > 0 {
+					sb.WriteByte(',')
+				}
+				sb.WriteString(hex.EncodeToString(b[j : j+8]))
+			}
+		default:
+			panic("c09: unknown macro " + part)
+		}
+	}
+	return sb.String()
+}
+
+// c09WMap: the parameters of a writer line as the encoder sees them (macros expanded)
+func c09WMap(enc string, kvs []c09KV) map[string]string {
+	m := c09Map(kvs)
+	if c09MacroEncoders[enc] {
+		for k, v := range m {
+			m[k] = c09Expand(v)
+		}
+	}
+	return m
+}
+
+// c09Squash keeps observations of large values short: a token key=value longer than 600 characters becomes
+// key=#<length of the value>:<FNV-1a of the value text> (the driver does the same to the model's observation)
+func c09Squash(obs string) string {
+	if len(obs) <= 600 {
+		return obs
+	}
+	toks := strings.Split(obs, " ")
+	for i, t := range toks {
+		if len(t) > 600 {
+			if j := strings.Index(t, "="); j >= 0 {
+				toks[i] = fmt.Sprintf("%s=#%d:%016x", t[:j], len(t)-j-1, fnv64([]byte(t[j+1:])))
+			}
+		}
+	}
+	return strings.Join(toks, " ")
+}
+
+// c09Dig prints the bytes a writer received: hex up to 256 bytes, a digest (length, FNV-1a, first 8 bytes) beyond
+func c09Dig(b []byte) string {
+	if len(b) <= 256 {
+		return hx(b)
+	}
+	return fmt.Sprintf("#%d:%016x:%s", len(b), fnv64(b), hx(b[:8]))
+}
+
+// c09FullBx describes a long encoding as a bx expression: the known large pieces (bx expressions, in the order they
+// occur) are named, long runs of one byte become z<hh>.<n>, everything else stays hex.
+func c09FullBx(full []byte, bigs []string) string {
+	if len(full) <= 256 {
+		return hx(full)
+	}
+	var pieces []string
+	var lit func(b []byte)
+	lit = func(b []byte) {
+		for len(b) > 0 {
+			// find the first run of >= 48 equal bytes
+			start, n := -1, 0
+			for i := 0; i < len(b); {
+				j := i
+				for j < len(b) && b[j] == b[i] {
+					j++
+				}
+				if j-i >= 48 {
+					start, n = i, j-i
+					break
+				}
+				i = j
+			}
+			if start < 0 {
+				pieces = append(pieces, hex.EncodeToString(b))
+				return
+			}
+			if start > 0 {
+				pieces = append(pieces, hex.EncodeToString(b[:start]))
+			}
+			pieces = append(pieces, fmt.Sprintf("z%02x.%d", b[start], n))
+			b = b[start+n:]
+		}
+	}
+	pos := 0
+	for _, bx := range bigs {
+		want := bxEval(bx)
+		if len(want) < 48 {
+			continue
+		}
+		i := bytes.Index(full[pos:], want)
+		if i < 0 {
+			continue
+		}
+		lit(full[pos : pos+i])
+		pieces = append(pieces, bx)
+		pos += i + len(want)
+	}
+	lit(full[pos:])
+	return strings.Join(pieces, "+")
+}
 
 // ---------- readers: the registry ----------
 
@@ -344,26 +477,32 @@ func c09Observe(dec string, input []byte, k int, sched []int, tail string, p map
 	if st := guardT(10*time.Second, func() { core = run(r, p) }); st != "" {
 		return st
 	}
-	return core + " left=" + strconv.Itoa(len(r.Left()))
+	return c09Squash(core) + " left=" + strconv.Itoa(len(r.Left()))
 }
 
 type c09Case struct {
-	dec    string
-	input  []byte
-	params []c09KV
-	pm     map[string]string
-	base   string
+	dec     string
+	input   []byte
+	inputBx string // how the input is printed: hex, or a bx expression for large inputs
+	params  []c09KV
+	pm      map[string]string
+	base    string
 }
 
 func c09NewCase(dec string, input []byte, params []c09KV) *c09Case {
-	cs := &c09Case{dec: dec, input: input, params: params, pm: c09Map(params)}
-	cs.base = c09Observe(dec, input, len(input), nil, "eof", cs.pm)
+	return c09NewCaseBx(dec, hx(input), params)
+}
+
+// c09NewCaseBx: the input is given as a bx expression (harness/c07.go); parameters may contain macros
+func c09NewCaseBx(dec string, inputBx string, params []c09KV) *c09Case {
+	cs := &c09Case{dec: dec, input: bxEval(inputBx), inputBx: inputBx, params: params, pm: c09WMap(dec, params)}
+	cs.base = c09Observe(dec, cs.input, len(cs.input), nil, "eof", cs.pm)
 	return cs
 }
 
 func (cs *c09Case) emit(c *Ctx, k int, sched []int, tail string) {
 	obs := c09Observe(cs.dec, cs.input, k, sched, tail, cs.pm)
-	args := []string{cs.dec, hx(cs.input), strconv.Itoa(k), fmtSched(sched), tail, "base=" + strings.ReplaceAll(cs.base, " ", "|")}
+	args := []string{cs.dec, cs.inputBx, strconv.Itoa(k), fmtSched(sched), tail, "base=" + strings.ReplaceAll(cs.base, " ", "|")}
 	for _, e := range cs.params {
 		args = append(args, e.k+"="+e.v)
 	}
@@ -666,14 +805,19 @@ func c09WObserve(enc string, mode string, k int, p map[string]string) string {
 		return st
 	}
 	if err != nil {
-		return "err wrote=" + hx(out())
+		return "err wrote=" + c09Dig(out())
 	}
-	return "ok wrote=" + hx(out())
+	return "ok wrote=" + c09Dig(out())
 }
 
 // the suite of budgets for one value; returns false if the encoder fails on an unlimited sink
 func (c *Ctx) c09WSuite(enc string, params []c09KV, bounds []int) bool {
-	pm := c09Map(params)
+	return c.c09WSuiteBig(enc, params, bounds, nil)
+}
+
+// c09WSuiteBig: bigs names the large pieces of the encoding (bx expressions) so that full= stays short
+func (c *Ctx) c09WSuiteBig(enc string, params []c09KV, bounds []int, bigs []string) bool {
+	pm := c09WMap(enc, params)
 	bw := &budgetWriter{budget: -1}
 	var err error
 	if st := guardT(10*time.Second, func() { err = c09Encoders[enc](bw, pm) }); st != "" || err != nil {
@@ -681,12 +825,35 @@ func (c *Ctx) c09WSuite(enc string, params []c09KV, bounds []int) bool {
 	}
 	full := bw.out
 	n := len(full)
+	fullBx := c09FullBx(full, bigs)
 	emit := func(mode string, k int) {
-		args := []string{enc, mode, strconv.Itoa(k), "full=" + hx(full)}
+		args := []string{enc, mode, strconv.Itoa(k), "full=" + fullBx}
 		for _, e := range params {
 			args = append(args, e.k+"="+e.v)
 		}
 		c.Emit("wfault", args, c09WObserve(enc, mode, k, pm))
+	}
+	if n > 3000 {
+		// a large encoding: the size-dependent paths. Budgets around the header (bounds[0]), the middle, the end.
+		hdr := 0
+		if len(bounds) > 0 {
+			hdr = bounds[0]
+		}
+		ks := []int{0, n - 1, 1, hdr - 1, hdr, hdr + 1, n / 2, n - 2, n, 1 + c.R.Intn(n-1), 1 + c.R.Intn(n-1), n + 3}
+		seenK := map[int]bool{}
+		for i, k := range ks {
+			if k < 0 || seenK[k] {
+				continue
+			}
+			seenK[k] = true
+			if i < 2 {
+				emit("stick", k)
+				emit("once", k)
+			} else {
+				emit([]string{"stick", "once"}[i%2], k)
+			}
+		}
+		return true
 	}
 	seen := map[int]bool{}
 	do := func(k int) {
@@ -741,7 +908,7 @@ func replayC09(c *Ctx, op string, a []string) bool {
 		if len(a) < 5 || c09Decoders[a[0]] == nil {
 			return false
 		}
-		cs := c09NewCase(a[0], unhx(a[1]), c09ParseKV(a[5:], "base"))
+		cs := c09NewCaseBx(a[0], a[1], c09ParseKV(a[5:], "base"))
 		k := c09Int(a[2])
 		if k > len(cs.input) {
 			k = len(cs.input)
@@ -752,10 +919,14 @@ func replayC09(c *Ctx, op string, a []string) bool {
 			return false
 		}
 		params := c09ParseKV(a[3:], "full")
-		pm := c09Map(params)
+		pm := c09WMap(a[0], params)
 		bw := &budgetWriter{budget: -1}
 		guard(func() { c09Encoders[a[0]](bw, pm) })
-		args := []string{a[0], a[1], a[2], "full=" + hx(bw.out)}
+		var bigs []string
+		if a[0] == "pack" {
+			bigs = []string{pm["data"]}
+		}
+		args := []string{a[0], a[1], a[2], "full=" + c09FullBx(bw.out, bigs)}
 		for _, e := range params {
 			args = append(args, e.k+"="+e.v)
 		}
@@ -1044,8 +1215,8 @@ func genC09Frames(c *Ctx) {
 		}
 		c.c09Suite("frame", []c09KV{{"t", strconv.Itoa(f.t)}, {"p0", p0.String()}, {"zin", zin}, {"zr", zrd}, {"via", via}}, in, bounds)
 		// writer
-		c.c09WSuite("pack", []c09KV{{"t", strconv.Itoa(f.t)}, {"id", fmt.Sprintf("%08x", uint32(f.id))}, {"data", dataBx},
-			{"z", z}, {"zi", zi}, {"zr", zr}, {"via", via}}, bounds)
+		c.c09WSuiteBig("pack", []c09KV{{"t", strconv.Itoa(f.t)}, {"id", fmt.Sprintf("%08x", uint32(f.id))}, {"data", dataBx},
+			{"z", z}, {"zi", zi}, {"zr", zr}, {"via", via}}, bounds, []string{dataBx})
 	}
 	// malformed headers: declared sizes negative / beyond the data
 	for _, t := range []int{-1, 0, 5} {
@@ -1202,6 +1373,354 @@ var c09Sources = []func(c *Ctx){
 	genC09Nbt,
 	genC09Level,
 	genC09Chat,
+	genC09Large,
+	genC09LargeRead,
+}
+
+// payload sizes around the places where an implementation may switch to another code path (pooled buffers, direct
+// writes, chunked copies): powers of two from 4 KiB to 64 KiB, each -1/0/+1, and two beyond
+var c09LargeSizes = []int{4095, 4096, 4097, 16383, 16384, 16385, 32767, 32768, 65535, 65536, 65537, 200000, 70001}
+
+// c09PickSizes: all sizes (thorough) or k of them (quick: a different subset per writer and per seed)
+func (c *Ctx) c09PickSizes(k int) []int {
+	if c.Thorough() {
+		return c09LargeSizes
+	}
+	perm := c.R.Perm(len(c09LargeSizes) - 2) // (the two sizes beyond 64 KiB: Pack without compression and thorough only)
+	var out []int
+	for _, i := range perm[:k] {
+		out = append(out, c09LargeSizes[i])
+	}
+	sort.Ints(out)
+	return out
+}
+
+// c09LargeBx: a compact description of n payload bytes (a repeated byte; with lcg also a seeded generator)
+func (c *Ctx) c09LargeBx(n int, lcg bool) string {
+	if lcg && c.R.Intn(2) == 0 {
+		return fmt.Sprintf("g%d.%d", c.R.Intn(1<<30), n)
+	}
+	return fmt.Sprintf("z%02x.%d", 1+c.R.Intn(255), n)
+}
+
+// genC09Large: every writer with large payloads under a failing sink (budgets 0, 1, around the header, the middle,
+// the last bytes). Packet.Pack without compression gets every size on every run: one w.Write per frame today, and
+// exactly the place where a size-dependent fast path would go.
+func genC09Large(c *Ctx) {
+	pack := func(t int, id int32, dataBx string, via string) {
+		data := bxEval(dataBx)
+		st, frame := realPack("pk", t, id, data)
+		if st != "ok" {
+			return
+		}
+		frame = append([]byte{}, frame...)
+		z, zi, zr := zInfo(t, frame, id, data)
+		bounds := c.c09FrameBounds(t, frame)
+		hdr := []int{0}
+		if len(bounds) >= 2 {
+			hdr[0] = bounds[len(bounds)-2] // the end of the last header field: where the payload starts
+		}
+		c.c09WSuiteBig("pack", []c09KV{{"t", strconv.Itoa(t)}, {"id", fmt.Sprintf("%08x", uint32(id))}, {"data", dataBx},
+			{"z", z}, {"zi", zi}, {"zr", zr}, {"via", via}}, hdr, []string{dataBx})
+	}
+	for i, n := range c09LargeSizes {
+		pack(-1, []int32{0x2a, 0x80, 0x4000, -1}[i%4], c.c09LargeBx(n, true), []string{"pk", "conn"}[i%2])
+	}
+	// compression on: below the threshold (plain body in the compressed format) and above it (a zlib stream; a
+	// repeated byte keeps the z= parameter short)
+	for i, n := range c.c09PickSizes(2) {
+		pack(1<<20, 0x2a, c.c09LargeBx(n, true), []string{"pk", "conn"}[i%2])
+		pack(256, 0x2a, c.c09LargeBx(n, false), []string{"conn", "pk"}[i%2])
+	}
+	// field writers: String, ByteArray, PluginMessageData, a Tuple and an Ary around them
+	for i, n := range c.c09PickSizes(3) {
+		b := c.c09LargeBx(n, false)
+		for j, e := range []struct{ ty, val string }{{"string", "!h" + b + "!"}, {"bytearray", "!h" + b + "!"}, {"pluginmsg", "!h" + b + "!"},
+			{"tuple(varint,bytearray,byte)", "(00000007,!h" + b + "!,7f)"}, {"ary:varint(string)", "(61,!h" + b + "!)"}} {
+			if (i+j)%2 == 1 && !c.Thorough() {
+				continue
+			}
+			hdr := len(leb(uint64(n)))
+			if e.ty == "pluginmsg" {
+				hdr = 0
+			}
+			c.c09WSuiteBig("fld", []c09KV{{"ty", e.ty}, {"val", e.val}, {"var", "0"}}, []int{hdr}, nil)
+		}
+	}
+	// RCON WritePacket (no size check on the sending side)
+	for _, n := range c.c09PickSizes(2) {
+		c.c09WSuiteBig("rcon", []c09KV{{"id", "00000001"}, {"typ", "00000002"}, {"p", "!h" + c.c09LargeBx(n, false) + "!"}}, []int{12}, nil)
+	}
+	// NBT encoders: a long string (at most 32767 bytes), a []byte, a RawMessage (one Write of its Data)
+	be32 := func(n int) string { return fmt.Sprintf("%08x", n) }
+	for i, n := range c.c09PickSizes(2) {
+		format := []string{"net", "file"}[i%2]
+		b := c.c09LargeBx(n, false)
+		if n <= 32767 {
+			c.c09WSuiteBig("nbt", []c09KV{{"ty", "str"}, {"val", "'!h" + b + "!"}, {"name", "72"}, {"fmt", format}}, []int{3}, nil)
+		}
+		// ([]byte element by element: the NBT writer model is quadratic in the driver, so only the smaller sizes)
+		if m := []int{4095, 4096, 4097, 16383, 16384, 16385}[c.R.Intn(c.N(3, 6))]; i == 0 || c.Thorough() {
+			c.c09WSuiteBig("nbt", []c09KV{{"ty", "sl<u8>"}, {"val", "[!l" + c.c09LargeBx(m, false) + "!]"}, {"name", "-"}, {"fmt", format}}, []int{5}, nil)
+		}
+		c.c09WSuiteBig("nbt", []c09KV{{"ty", "raw"}, {"val", "07:" + be32(n) + "!h" + b + "!"}, {"name", "-"}, {"fmt", "net"}}, []int{1}, nil)
+	}
+	strMax := []int{32766, 32767} // the longest strings the format allows
+	if !c.Thorough() {
+		strMax = strMax[c.R.Intn(2):][:1]
+	}
+	for _, n := range strMax {
+		c.c09WSuiteBig("nbt", []c09KV{{"ty", "str"}, {"val", "'!h" + c.c09LargeBx(n, false) + "!"}, {"name", "-"}, {"fmt", "net"}}, []int{3}, nil)
+	}
+	// dynbt MarshalNBT: a byte array and a string inside a compound
+	for _, n := range c.c09PickSizes(1) {
+		b := c.c09LargeBx(n, false)
+		c.c09WSuiteBig("dynbt", []c09KV{{"doc", "07" + be32(n) + "!h" + b + "!"}}, []int{4}, nil)
+		if n <= 32767 {
+			c.c09WSuiteBig("dynbt", []c09KV{{"doc", "0a0800016b" + fmt.Sprintf("%04x", n) + "!h" + b + "!00"}}, []int{6}, nil)
+		}
+	}
+	// BitStorage.WriteTo: 4096 and 16384 bytes of longs (4 bits x 8192 / 32768 entries); one Write per long, and the
+	// driver's sink model appends per Write, so larger storages are left to the thorough tier
+	bitsCfg := []struct{ b, n, longs int }{{4, 8192, 512}}
+	if c.Thorough() {
+		bitsCfg = append(bitsCfg, struct{ b, n, longs int }{4, 32768, 2048}, struct{ b, n, longs int }{4, 131072, 8192})
+	}
+	for _, e := range bitsCfg {
+		c.c09WSuiteBig("bits", []c09KV{{"b", strconv.Itoa(e.b)}, {"n", strconv.Itoa(e.n)}, {"init", "!h" + c.c09LargeBx(8*e.longs, false) + "!"}},
+			[]int{len(leb(uint64(e.longs)))}, nil)
+	}
+}
+
+// ---------- readers: large variable-length parts ----------
+
+// sizes n-1, n, n+1 for the powers of two from 64 to 65536, in four bands
+var c09ReadBands = [][]int{
+	{63, 64, 65, 127, 128, 129, 255, 256, 257, 511, 512, 513, 1023, 1024, 1025},
+	{2047, 2048, 2049, 4095, 4096, 4097},
+	{8191, 8192, 8193, 16383, 16384, 16385},
+	{32767, 32768, 32769, 65535, 65536, 65537},
+}
+
+// c09ReadSizes: per band sizes (quick: that many of each band, at most max; thorough: all up to max)
+func (c *Ctx) c09ReadSizes(per int, max int) []int {
+	var out []int
+	for _, band := range c09ReadBands {
+		var ok []int
+		for _, n := range band {
+			if n <= max {
+				ok = append(ok, n)
+			}
+		}
+		if c.Thorough() {
+			out = append(out, ok...)
+			continue
+		}
+		for _, i := range c.R.Perm(len(ok)) {
+			if i < per {
+				out = append(out, ok[i])
+			}
+		}
+	}
+	sort.Ints(out)
+	return out
+}
+
+func (c *Ctx) c09G(n int) string { return fmt.Sprintf("g%d.%d", c.R.Intn(1<<30), n) } // non-periodic content
+
+func c09Join(parts ...string) string {
+	var out []string
+	for _, p := range parts {
+		if p != "" && p != "-" {
+			out = append(out, p)
+		}
+	}
+	if len(out) == 0 {
+		return "-"
+	}
+	return strings.Join(out, "+")
+}
+
+// c09SuiteBig: the deliveries for one large input (prefix = where its variable-length part starts): contiguous,
+// one byte per Read, read boundaries at the multiples of 4096 of the input and of the body (bufio's default size),
+// a few periodic schedules, and the source ending / failing at 0, 1, around the prefix, in the middle, at the
+// 4096 boundary, two and one byte before the end.
+func (c *Ctx) c09SuiteBig(dec string, params []c09KV, inputBx string, prefix int) {
+	cs := c09NewCaseBx(dec, inputBx, params)
+	n := len(cs.input)
+	tail := func() string { return c09Tails[c.R.Intn(4)] }
+	cs.emit(c, n, nil, "eof")
+	cs.emit(c, n, []int{1}, tail())
+	cs.emit(c, n, []int{4096}, "eofd")
+	if prefix > 0 {
+		cs.emit(c, n, []int{prefix, 4096}, "eof")
+	}
+	cs.emit(c, n, []int{1 + c.R.Intn(4095), 4096}, "faild")
+	cs.emit(c, n, []int{1 + c.R.Intn(9), 1 + c.R.Intn(700)}, tail())
+	cs.emit(c, n, []int{4095, 1, 4097, 1 + c.R.Intn(3)}, tail())
+	seen := map[int]bool{}
+	for i, k := range []int{0, 1, prefix - 1, prefix, prefix + 1, n / 2, n - 2, n - 1, prefix + 4096, 4096, 4097, c.R.Intn(n + 1), c.R.Intn(n + 1)} {
+		if k < 0 || k >= n || seen[k] {
+			continue
+		}
+		seen[k] = true
+		cs.emit(c, k, nil, "eof")
+		switch i % 4 {
+		case 0:
+			cs.emit(c, k, []int{4096}, "fail")
+		case 1:
+			cs.emit(c, k, []int{1}, "fail")
+		case 2:
+			cs.emit(c, k, []int{1 + c.R.Intn(5), 4096}, "faild")
+		default:
+			cs.emit(c, k, nil, "fail")
+		}
+	}
+}
+
+func genC09LargeRead(c *Ctx) {
+	be16 := func(n int) string { return fmt.Sprintf("%04x", n) }
+	be32 := func(n int) string { return fmt.Sprintf("%08x", n) }
+	lebx := func(n int) string { return hx(leb(uint64(n))) }
+	trail := func() string {
+		if c.R.Intn(2) == 0 {
+			return ""
+		}
+		return hx(c.randBytes(1 + c.R.Intn(3)))
+	}
+	fld := func(ty, val, inputBx string, prefix int) {
+		c.c09SuiteBig("fld", []c09KV{{"ty", ty}, {"val", val}, {"mode", strconv.Itoa(c.R.Intn(4))}, {"var", "0"}}, inputBx, prefix)
+	}
+	// --- packet fields: String (= Identifier, Chat), ByteArray, PluginMessageData, inside a Tuple / Option / Ary ---
+	for _, n := range c.c09ReadSizes(1, 1<<20) {
+		g := c.c09G(n)
+		fld("string", "!h"+g+"!", c09Join(lebx(n), g, trail()), len(leb(uint64(n))))
+	}
+	for i, n := range c.c09ReadSizes(1, 1<<20) {
+		g := c.c09G(n)
+		pl := len(leb(uint64(n)))
+		switch (i + c.R.Intn(5)) % 5 {
+		case 4:
+			fld("bytearray", "!h"+g+"!", c09Join(lebx(n), g, trail()), pl)
+		case 0:
+			fld("pluginmsg", "!h"+g+"!", g, 0)
+		case 1:
+			fld("tuple(varint,string,byte)", "(00000007,!h"+g+"!,7f)", c09Join("07", lebx(n), g, "7f", trail()), 1+pl)
+		case 2:
+			fld("option(string)", "(!h"+g+"!)", c09Join("01", lebx(n), g, trail()), 1+pl)
+		default:
+			fld("ary:varint(string)", "(61,!h"+g+"!)", c09Join("020161", lebx(n), g, trail()), 3+pl)
+		}
+	}
+	// counted arrays: Ary counts, BitSet (the driver's stream model re-flattens the source per element: at most 2049 elements)
+	for i, n := range c.c09ReadSizes(1, c.N(1025, 2049)) {
+		g := c.c09G(n)
+		if i%2 == 0 {
+			fld("ary:varint(ubyte)", "(!l"+g+"!)", c09Join(lebx(n), g, trail()), len(leb(uint64(n))))
+			continue
+		}
+		g8 := c.c09G(8 * n)
+		fld("bitset", "(!q"+g8+"!)", c09Join(lebx(n), g8, trail()), len(leb(uint64(n))))
+	}
+	// --- frames: without compression, the compressed format below the threshold, and compressed ---
+	frame := func(t int, id int32, dataBx string) {
+		data := bxEval(dataBx)
+		st, fr := realPack("pk", t, id, data)
+		if st != "ok" {
+			return
+		}
+		fr = append([]byte{}, fr...)
+		bounds := c.c09FrameBounds(t, fr)
+		prefix := 0
+		if len(bounds) >= 2 {
+			prefix = bounds[len(bounds)-2]
+		}
+		zin, zr := "-", "none"
+		if t >= 0 {
+			if zs, ok := zlibPortion(fr); ok {
+				zin = dig(zs)
+				same := c09Join(hx(leb32(id)), dataBx)
+				if out, ok2 := zLenient(zs); ok2 && bytes.Equal(out, bxEval(same)) {
+					zr = same
+				} else {
+					zr = optBx(out, ok2, nil)
+				}
+			}
+		}
+		in := c09Join(c09FullBx(fr, []string{dataBx}), trail())
+		c.c09SuiteBig("frame", []c09KV{{"t", strconv.Itoa(t)}, {"p0", "0:0"}, {"zin", zin}, {"zr", zr}, {"via", []string{"pk", "conn"}[c.R.Intn(2)]}}, in, prefix)
+	}
+	off := c.R.Intn(3)
+	for i, n := range c.c09ReadSizes(c.N(1, 2), 1<<20) {
+		if c.Thorough() || (i+off)%3 != 2 {
+			frame(-1, []int32{0x2a, 0x4000}[i%2], c.c09G(n))
+		}
+		if !c.Thorough() && (i+off)%3 == 0 {
+			continue
+		}
+		if (i+off)%2 == 0 {
+			frame(1<<20, 0x2a, c.c09G(n)) // compressed format, plain body
+		} else if n <= 4097 {
+			frame(256, 0x2a, fmt.Sprintf("r%d.%d", c.R.Intn(1<<30), n)) // a real zlib stream of non-periodic content
+		} else {
+			frame(256, 0x2a, fmt.Sprintf("z%02x.%d", c.R.Intn(256), n)) // (a long stream only of a repeated byte: it travels on the line)
+		}
+	}
+	// --- RCON: payloads up to the protocol maximum (4096 - 10) and one beyond ---
+	for _, n := range append(c.c09ReadSizes(1, 2049), []int{4085, 4086, 4087}[c.R.Intn(c.N(3, 1)):]...) {
+		p := bxEval(c.c09G(n))
+		in := c09Join(hx(c16Frame(c.c16Int(), c.c16Type(), p)), trail())
+		c.c09SuiteBig("rcon", nil, in, 12)
+	}
+	// --- NBT: byte arrays, strings (at most 32767 bytes), int arrays, lists; every destination kind ---
+	for i, n := range c.c09ReadSizes(1, 1<<20) {
+		g := c.c09G(n)
+		ba := c09Join("07"+be32(n), g)
+		all := c.Thorough()
+		rot := (i + c.R.Intn(3)) % 3
+		if all || rot == 0 {
+			c.c09SuiteBig("dynbt.net", nil, c09Join(ba, trail()), 5)
+		}
+		if all || rot == 1 {
+			dest := []string{"nbt.any", "nbt.raw"}[c.R.Intn(2)]
+			c.c09SuiteBig(dest, []c09KV{{"fmt", "net"}}, c09Join(ba, trail()), 5)
+		}
+		if n <= 32767 {
+			str := c09Join("08"+be16(n), g)
+			if all || rot == 2 {
+				c.c09SuiteBig("dynbt.file", nil, c09Join("080001"+"72"+be16(n), g, trail()), 6)
+			}
+			if all || rot == 0 {
+				c.c09SuiteBig("snbt", []c09KV{{"ff", "-"}}, c09Join(str, trail()), 3)
+			}
+			if all || rot == 1 {
+				c.c09SuiteBig("nbt.typed", []c09KV{{"ty", "str"}, {"fmt", "net"}, {"dis", "0"}}, str, 3)
+			}
+		} else {
+			g4 := c.c09G(n / 4 * 4)
+			if all || rot != 0 {
+				c.c09SuiteBig("dynbt.net", nil, c09Join("0b"+be32(n/4), g4), 5)
+			}
+			if all || rot != 1 {
+				c.c09SuiteBig("nbt.typed", []c09KV{{"ty", "sl<u8>"}, {"fmt", "net"}, {"dis", "0"}}, ba, 5)
+			}
+		}
+	}
+	// (element-wise parts: lists, the walker's arrays, BitStorage longs — at most 2049 elements, see above)
+	for i, n := range c.c09ReadSizes(1, c.N(1025, 2049)) {
+		g := c.c09G(n)
+		if c.Thorough() || i%2 == 0 {
+			c.c09SuiteBig("dynbt.net", nil, c09Join("0901"+be32(n), g, trail()), 6)
+			c.c09SuiteBig("snbt", []c09KV{{"ff", "-"}}, c09Join("07"+be32(n), g), 5)
+		}
+		if !c.Thorough() && i%2 == 0 {
+			continue
+		}
+		c.c09SuiteBig("nbt.any", []c09KV{{"fmt", "net"}}, c09Join("0901"+be32(n), g, trail()), 6)
+		g8 := c.c09G(8 * n)
+		c.c09SuiteBig("bits", []c09KV{{"b", "4"}, {"n", strconv.Itoa(16 * n)}, {"init", fmt.Sprintf("!hz00.%d!", 8*n)}},
+			c09Join(lebx(n), g8, trail()), len(leb(uint64(n))))
+	}
 }
 
 func genC09(c *Ctx) {
